@@ -189,6 +189,32 @@ def build_graph(desc, root=ROOT, real=False):
     return g, fs
 
 
+def rebuild_graph(graph, desc2):
+    """Edit the Target objects of `graph` in place so that they carry the inputs/outputs of `desc2` (same target
+    names), then build a new graph from the same objects - the way a workflow file edits a target it got back
+    from gwf.target() and gwf builds the graph afterwards."""
+    from gwf.core import Graph
+
+    root = LAST_ROOT[0]
+    ROOT_FOR_ABS[0] = root
+    by_name = {d["name"]: d for d in desc2["targets"]}
+    old = os.getcwd()
+    if os.path.isdir(root):
+        os.chdir(root)
+    try:
+        for t in graph.targets.values():
+            d = by_name[t.name]
+            t.inputs = decode(d.get("inputs", []))
+            t.outputs = decode(d.get("outputs", []))
+        fs = MemFS(desc2.get("files", {}), root)
+        g = Graph.from_targets({t.name: t for t in graph.targets.values()}, fs)
+        for t in g.targets.values():
+            t.flattened_inputs(), t.flattened_outputs()
+        return g
+    finally:
+        os.chdir(old)
+
+
 def rel(path, root=None):
     """gwf absolute path -> project-relative normalised (as in the model)."""
     root = root or LAST_ROOT[0]
